@@ -817,8 +817,8 @@ func c06ConfigUpdateAndFlapping(r *ev.Run) {
 		}()
 	}
 	// flaps until enough connections have met them (bounded by a number of flaps, not by time)
-	wantConns := int64(60000)
-	maxFlaps := 40000
+	wantConns := int64(120000)
+	maxFlaps := 80000
 	if r.Tier == "thorough" {
 		wantConns, maxFlaps = 600000, 400000
 	}
